@@ -34,4 +34,5 @@ PLANS = {
     "C03": {"level": "model_checking", "runs": simple("core", "asm-default")},
     "C09": {"level": "exploration", "runs": simple("core", "asm-default")},
     "C10": {"level": "model_checking", "runs": simple("core", "asm-default")},
+    "C11": {"level": "fault_enumeration", "runs": simple("core", "asm-all", shims={"mmapfail": "VERIF_MMAPFAIL_SO"})},
 }
